@@ -174,13 +174,25 @@ func c04CheckProbe(c *fw.Ctx, kind string, hist []string, p c04Probe, peek bool)
 	c.Trace(func() (string, any) { return key, pl })
 	cp := append([]byte(nil), p.In...)
 	var got string
-	if !c.Guard(key, func() any { return pl }, func() { got = leafOf(lib.Detect(p.In, p.Limit)) }) {
+	var gotChain lib.Chain
+	if !c.Guard(key, func() any { return pl }, func() {
+		m := lib.Detect(p.In, p.Limit)
+		got = leafOf(m)
+		gotChain = lib.ChainOf(m)
+	}) {
 		return
 	}
 	c.Eval(1)
 	if !bytes.Equal(cp, p.In) {
 		c.Violate("caller-buffer-modified", key, fmt.Sprintf("Detect changed the caller's buffer (probe %s)", p.Name), pl)
 		copy(p.In, cp)
+	}
+	if got != p.Want && strings.HasPrefix(p.Name, "gen-") && c04HigherPriority(c, p, gotChain, got, key, pl) {
+		// A randomly generated probe happens to carry the signature of a format that is
+		// tried before the text formats (e.g. a first cell "drpm…" is a delta-RPM
+		// magic number): the construction oracle does not apply to these bytes. The
+		// result is still compared with a second detection behind a neutral predecessor.
+		return
 	}
 	if got != p.Want {
 		c.Violate("history-dependent-result", key, fmt.Sprintf("probe %s %s (limit %d) gives %s after the detections [%s]; its expectation (and its result as the first detection of a fresh process) is %s", p.Name, fw.Quote(p.In, 60), p.Limit, got, strings.Join(hist, ", "), p.Want), pl)
@@ -501,6 +513,7 @@ func init() {
 			"sync.Pool may drop objects: reuse is observed (pool-peek evidence), not forced; under -race pools drop at random",
 			"probe expectations come from construction and from the C08/C10/C11/C12/C13 oracles, not from the process under test",
 			"the concurrent batch keeps the limit constant (concurrent SetLimit is C06)",
+			"a generated probe whose random bytes happen to carry the signature of a format tried before the text formats (first cell \"drpm…\" = delta RPM) is outside the construction oracle: it is accepted only if every detector on the reported path accepts the bytes on its own, and is then detected a second time behind a neutral predecessor (results must agree)",
 		},
 		Plan: func(tier string, seed int64) []fw.Batch {
 			var bs []fw.Batch
@@ -570,4 +583,42 @@ func init() {
 			return nil
 		},
 	})
+}
+
+// c04HigherPriority reports whether the result of a generated probe is explained
+// by a format with pinned priority over the text formats whose own detector
+// accepts the probe's bytes. The construction oracle then says nothing about
+// these bytes; history independence is still decided by detecting the same bytes
+// again behind a neutral predecessor.
+func c04HigherPriority(c *fw.Ctx, p c04Probe, ch lib.Chain, got, key string, pl c04Payload) bool {
+	parts := strings.SplitN(p.Want, "|", 2)
+	if len(parts) != 2 {
+		return false
+	}
+	t := baseTree()
+	v, why := familyOrException(t, ch, parts[0], parts[1])
+	if v != "exception" {
+		return false
+	}
+	path := t.PathOfChain(ch)
+	if len(path) < 2 {
+		return false
+	}
+	hdr := p.In
+	if p.Limit > 0 && len(hdr) > int(p.Limit) {
+		hdr = hdr[:p.Limit]
+	}
+	for _, id := range path[1:] {
+		if !t.Nodes[id].Det(hdr, p.Limit) {
+			return false // the reported format does not accept these bytes: not explained
+		}
+	}
+	c.Count("generated_probes_carrying_a_higher_priority_signature", 1)
+	c.SetAdd("generated_probe_exception_formats", why)
+	lib.Detect([]byte("plain text"), 3072)
+	again := leafOf(lib.Detect(p.In, p.Limit))
+	if again != got {
+		c.Violate("history-dependent-result", key, fmt.Sprintf("probe %s %s (limit %d) gives %s after the detections [%s] and %s behind a plain-text detection", p.Name, fw.Quote(p.In, 60), p.Limit, got, strings.Join(pl.History, ", "), again), pl)
+	}
+	return true
 }
